@@ -6,12 +6,12 @@ Import ListNotations.
 Local Open Scope N_scope.
 
 Definition kq (rd ad dnssec_ok : bool) : key := key_of_request 1 1 1 rd false ad dnssec_ok.
-Definition A (ttl id : N) := mkRR 1 1 ttl id.
-Definition RRSIG (ttl id : N) := mkRR 46 1 ttl id.
-Definition OPT := mkRR 41 1232 32768 9.
+Definition A (ttl id : N) := mkRR 1 1 ttl id false.
+Definition RRSIG (ttl id : N) := mkRR 46 1 ttl id false.
+Definition OPT := mkRR 41 1232 32768 9 false.
 (* upstream answer to an RD+DO request: AA, RD, AD set; A 300 + RRSIG 100; NS 300 + RRSIG 300; OPT *)
 Definition up1 : resp :=
-  RMsg (mkMsg 0 true false true true (Some (1, 1)) [A 300 1; RRSIG 100 2] [mkRR 2 1 300 3; RRSIG 300 4] [OPT]).
+  RMsg (mkMsg 77 0 true false true true (Some (1, 1)) [A 300 1; RRSIG 100 2] [mkRR 2 1 300 3 false; RRSIG 300 4] [OPT] false).
 Definition dummy : resp := RErr 0.
 
 (* served_was_received / ttl_aged / no_dnssec_leak: the cascade strips, clears AD, RD, AA and ages *)
@@ -24,11 +24,11 @@ Example ex_cascade :
      EQuery (kq true false true) 0 100001 0 dummy;      (* one ms later: stale, forwarded *)
      EQuery (kq false false false) 0 300000 0 dummy]    (* the stripped entry lives to 300 s *)
   = Ok [OForwarded;
-        OServed (RMsg (mkMsg 0 false false false false (Some (1, 1)) [A 295 1] [mkRR 2 1 295 3] [OPT]));
-        OServed (RMsg (mkMsg 0 false false true true (Some (1, 1)) [A 293 1] [mkRR 2 1 293 3] [OPT]));
-        OServed (RMsg (mkMsg 0 false false true true (Some (1, 1)) [A 200 1; RRSIG 0 2] [mkRR 2 1 200 3; RRSIG 200 4] [OPT]));
+        OServed (RMsg (mkMsg 77 0 false false false false (Some (1, 1)) [A 295 1] [mkRR 2 1 295 3 false] [OPT] false));
+        OServed (RMsg (mkMsg 77 0 false false true true (Some (1, 1)) [A 293 1] [mkRR 2 1 293 3 false] [OPT] false));
+        OServed (RMsg (mkMsg 77 0 false false true true (Some (1, 1)) [A 200 1; RRSIG 0 2] [mkRR 2 1 200 3 false; RRSIG 200 4] [OPT] false));
         OForwarded;
-        OServed (RMsg (mkMsg 0 false false false false (Some (1, 1)) [A 0 1] [mkRR 2 1 0 3] [OPT]))].
+        OServed (RMsg (mkMsg 77 0 false false false false (Some (1, 1)) [A 0 1] [mkRR 2 1 0 3 false] [OPT] false))].
 Proof. vm_compute. reflexivity. Qed.
 
 Example ex_cascade_events_ok :
@@ -38,13 +38,13 @@ Proof.
 Qed.
 
 (* never_stale: NXDOMAIN with a day-long SOA is kept for max_nxdomain_validity (3600 s) *)
-Definition nx : resp := RMsg (mkMsg 3 false false true false (Some (1, 1)) [] [mkRR 6 1 86400 5] []).
+Definition nx : resp := RMsg (mkMsg 77 3 false false true false (Some (1, 1)) [] [mkRR 6 1 86400 5 false] [] false).
 Example ex_nxdomain_cap :
   c20_run config_default
     [EQuery (kq true false false) 0 0 0 nx; EQuery (kq true false false) 0 3600000 0 dummy;
      EQuery (kq true false false) 0 3600001 0 nx]
   = Ok [OForwarded;
-        OServed (RMsg (mkMsg 3 false false true false (Some (1, 1)) [] [mkRR 6 1 82800 5] []));
+        OServed (RMsg (mkMsg 77 3 false false true false (Some (1, 1)) [] [mkRR 6 1 82800 5 false] [] false));
         OForwarded].
 Proof. vm_compute. reflexivity. Qed.
 
@@ -59,15 +59,29 @@ Proof. vm_compute. reflexivity. Qed.
 (* truncated answers and zero TTLs are not stored; a DNSSEC qtype is never taken from a DO entry *)
 Example ex_not_stored :
   c20_run config_default
-    [EQuery (kq true false false) 0 0 0 (RMsg (mkMsg 0 false true true false (Some (1, 1)) [A 60 1] [] []));
-     EQuery (kq true false false) 0 0 0 (RMsg (mkMsg 0 false false true false (Some (1, 1)) [A 0 1] [] []));
+    [EQuery (kq true false false) 0 0 0 (RMsg (mkMsg 77 0 false true true false (Some (1, 1)) [A 60 1] [] [] false));
+     EQuery (kq true false false) 0 0 0 (RMsg (mkMsg 77 0 false false true false (Some (1, 1)) [A 0 1] [] [] false));
      EQuery (kq true false false) 0 0 0 dummy;
      EQuery (key_of_request 1 1 46 true false false true) 0 0 0
-        (RMsg (mkMsg 0 false false true false (Some (46, 1)) [RRSIG 60 1] [] []));
+        (RMsg (mkMsg 77 0 false false true false (Some (46, 1)) [RRSIG 60 1] [] [] false));
      EQuery (key_of_request 1 1 46 true false false false) 0 1 0 dummy;
      EQuery (key_of_request 1 1 46 true false false true) 0 1 0 dummy]
   = Ok [OForwarded; OForwarded; OForwarded; OForwarded; OForwarded;
-        OServed (RMsg (mkMsg 0 false false true false (Some (46, 1)) [RRSIG 60 1] [] []))].
+        OServed (RMsg (mkMsg 77 0 false false true false (Some (46, 1)) [RRSIG 60 1] [] [] false))].
+Proof. vm_compute. reflexivity. Qed.
+
+(* parse errors: a record whose RDATA does not parse is not noticed when the
+   answer is stored; a hit then yields MessageParseError while the entry is
+   fresh; a message whose sections cannot be walked is not stored and the
+   caller gets the error instead of the message *)
+Definition badA : rr := mkRR 1 1 60 8 true.
+Example ex_parse_errors :
+  c20_run config_default
+    [EQuery (kq true false false) 0 0 0 (RMsg (mkMsg 5 0 false false true false (Some (1, 1)) [A 60 1; badA] [] [] false));
+     EQuery (kq true false false) 0 1000 0 dummy;
+     EQuery (kq true false false) 0 60001 0 (RMsg (mkMsg 6 0 false false true false (Some (1, 1)) [A 60 1] [] [] true));
+     EQuery (kq true false false) 0 60002 0 (RMsg (mkMsg 7 0 false true true false (Some (1, 1)) [A 60 1] [] [] true))]
+  = Ok [OForwarded; OServed (RErr parse_error); OFwdErr parse_error; OForwarded].
 Proof. vm_compute. reflexivity. Qed.
 
 (* eviction: any entry may vanish; the next request is simply forwarded *)
